@@ -134,6 +134,10 @@ var c05Families = []c05Family{
 	{name: "revinner-prefix-ok-suffix-fails", pat: `[0-9]+[a-z ]*connection[a-z ]*[0-9]`, hay: c05PrefixRep("1 ", "lost connection "), apis: []string{"Match", "FindIndex"}},
 	{name: "revinner-prefix-ok-suffix-fails-2", pat: `[A-Z][a-z.]*foo[a-z.]*[0-9]`, hay: c05PrefixRep("A", "foo."), apis: []string{"Match", "FindIndex"}},
 	{name: "revsuffix-prefix-ok-tail-fails", pat: `[0-9]+[a-z ]*\.txt[a-z ]*[0-9]`, hay: c05PrefixRep("1 ", "a.txt "), apis: []string{"Match", "FindIndex"}},
+	// occurrences of the inner literal BACK TO BACK (no byte between one occurrence and the next), the literal's
+	// bytes inside the prefix class, no match anywhere: the end of each reverse scan equals the guard position
+	{name: "revinner-back-to-back", pat: `[A-Z]+[a-z]*connection[a-z]*[A-Z]`, hay: c05PrefixRep("A", "connection"), apis: []string{"Match"}},
+	{name: "revinner-back-to-back-2", pat: `[a-z_]+_id_[a-z_]*[0-9]`, hay: c05PrefixRep("a", "_id_"), apis: []string{"Match"}},
 	// reverse inner
 	{name: "revinner-a.*foo.*b", pat: `a.*foo.*b`, hay: c05Rep("foo"), apis: []string{"Match", "FindIndex"}},
 	{name: "revinner-x.*foo.*y-lines", pat: `x.*foo.*y`, hay: c05Rep("xfoo\n"), apis: []string{"Match", "FindIndex"}},
